@@ -137,16 +137,15 @@ Proof.
   destruct (add_exception s q e) as [s1 o1] eqn:A. apply add_event_inv in A; [|exact HI].
   destruct (run_stoppers s1 rest e) as [s2 o2] eqn:R. apply IH in R; [|exact A]. invpairs. exact R.
 Qed.
-Lemma tm_dispatch_error_inv : forall s k r s' o, Inv s -> tm_dispatch_error s k r = Ok (s', o) -> Inv s'.
+Lemma tm_dispatch_error_inv : forall s k r s' o, Inv s -> tm_dispatch_error s k r = (s', o) -> Inv s'.
 Proof.
-  intros s k r s' o HI H. unfold tm_dispatch_error in H. destruct (outgoing s); [|inversion H; subst; exact HI].
-  destruct (collect_stoppers r l); cbn in H; [|discriminate].
-  destruct (run_stoppers s a (wrap_error k)) eqn:R. apply run_stoppers_inv in R; [|exact HI]. inversion H. subst. exact R.
+  intros s k r s' o HI H. unfold tm_dispatch_error in H. destruct (outgoing s); [|invpairs; exact HI].
+  eapply run_stoppers_inv; eauto.
 Qed.
 Lemma mm_dispatch_error_inv : forall s k r s' o, Inv s -> mm_dispatch_error s k r = (s', o) -> Inv s'.
 Proof.
   intros s k r s' o HI H. unfold mm_dispatch_error in H. destruct (exchanges s); [|invpairs; exact HI].
-  destruct (tm_dispatch_error s k r) as [[s1 o1]|e] eqn:T; [|invpairs; exact HI].
+  destruct (tm_dispatch_error s k r) as [s1 o1] eqn:T.
   apply tm_dispatch_error_inv in T; [|exact HI]. invpairs. eapply Inv_frame; [| |exact T]; reflexivity.
 Qed.
 Lemma retransmit_inv : forall s r mid s' o, Inv s -> _retransmit s r mid = (s', o) -> Inv s'.
@@ -154,9 +153,7 @@ Proof.
   intros s r mid s' o HI H. unfold _retransmit in H. destruct (exchanges s); [|invpairs; exact HI].
   destruct (alookup rm_eqb (r, mid) l); [|invpairs; exact HI].
   destruct (ex_counter e <? 4); [invpairs; eapply Inv_frame; [| |exact HI]; reflexivity|].
-  set (s2 := set_backlogs _ _) in H. assert (I2 : Inv s2) by (eapply Inv_frame; [| |exact HI]; reflexivity). clearbody s2.
-  destruct (tm_dispatch_error s2 _ r) as [[s1 o1]|x] eqn:T; [|invpairs; exact I2].
-  apply tm_dispatch_error_inv in T; [|exact I2]. invpairs. exact T.
+  eapply tm_dispatch_error_inv; [|exact H]. eapply Inv_frame; [| |exact HI]; reflexivity.
 Qed.
 Lemma shutdown_inv : forall s s' o, Inv s -> shutdown s = (s', o) -> Inv s'.
 Proof.
@@ -333,30 +330,35 @@ Proof.
     assert (G1 : get_req s1 q = Some c). { rewrite <- G. eapply add_event_other; [|exact A]. congruence. }
     specialize (IH s1 c rest Hin G1 Hc Hr Hf). rewrite R in IH. exact IH.
 Qed.
-Definition no_mc_key (og : list (key * Z)) : Prop := forall k q, In (k, q) og -> snd k <> None.
-Lemma collect_stoppers_ok : forall r og, no_mc_key og ->
-  exists qs, collect_stoppers r og = Ok qs /\ forall tok q, In ((tok, Some r), q) og -> In q qs.
+Lemma collect_stoppers_ok : forall r og tok q, In ((tok, Some r), q) og -> In q (collect_stoppers r og).
 Proof.
-  intros r. induction og as [|[[tok [r'|]] q] rest IH]; intros Hn.
-  - exists []. split; [reflexivity|intros ? ? []].
-  - destruct IH as (qs & E & Hq). { intros k q0 Hin. apply (Hn k q0). right. exact Hin. }
-    cbn [collect_stoppers]. rewrite E. cbn [bind]. eexists. split; [reflexivity|].
-    intros tok0 q0 [Hin|Hin].
+  intros r. induction og as [|[[tok0 [r'|]] q0] rest IH]; intros tok q Hin; [contradiction| |].
+  - cbn [collect_stoppers]. destruct Hin as [Hin|Hin].
     + inversion Hin. subst. rewrite Z.eqb_refl. left. reflexivity.
-    + destruct (r' =? r); [right|]; eapply Hq; eauto.
-  - exfalso. apply (Hn (tok, None) q); [left; reflexivity|reflexivity].
+    + destruct (r' =? r); [right|]; eapply IH; eauto.
+  - cbn [collect_stoppers]. destruct Hin as [Hin|Hin]; [discriminate|]. eapply IH; eauto.
 Qed.
+(* unconditional: entries of multicast requests, keyed (token, None), are simply skipped *)
 Lemma transport_error_fails_lemma : forall s og r kind tok q c, Inv s -> outgoing s = Some og -> exchanges s <> None ->
-  no_mc_key og -> In ((tok, Some r), q) og -> get_req s q = Some c -> cq_fut c = FPending ->
+  In ((tok, Some r), q) og -> get_req s q = Some c -> cq_fut c = FPending ->
   In (SetException q (wrap_error kind)) (snd (mm_dispatch_error s kind r)).
 Proof.
-  intros s og r kind tok q c HI Hog Hex Hn Hin G Hf.
+  intros s og r kind tok q c HI Hog Hex Hin G Hf.
   unfold mm_dispatch_error. destruct (exchanges s); [|contradiction]. unfold tm_dispatch_error. rewrite Hog.
-  destruct (collect_stoppers_ok r og Hn) as (qs & E & Hq). rewrite E. cbn [bind].
   unfold Inv in HI. rewrite Hog in HI. destruct (HI _ _ Hin) as (c0 & G0 & Hc & _ & Hl). rewrite G in G0. inversion G0. subst c0.
   destruct Hl as [[Hr _]|(_ & _ & rid & Hx)]; [|congruence].
-  pose proof (run_stoppers_delivers (wrap_error kind) q qs s c _ (Hq _ _ Hin) G Hc Hr Hf) as H.
-  destruct (run_stoppers s qs (wrap_error kind)) as [s1 o1]. exact H.
+  pose proof (run_stoppers_delivers (wrap_error kind) q _ s c _ (collect_stoppers_ok r og _ _ Hin) G Hc Hr Hf) as H.
+  destruct (run_stoppers s (collect_stoppers r og) (wrap_error kind)) as [s1 o1]. exact H.
+Qed.
+(* the give-up of a CON exchange is the same dispatch with ConRetransmitsExceeded *)
+Lemma giveup_fails_lemma : forall s og r tok q c, Inv s -> outgoing s = Some og ->
+  In ((tok, Some r), q) og -> get_req s q = Some c -> cq_fut c = FPending ->
+  In (SetException q ConRetransmitsExceeded) (snd (tm_dispatch_error s (ENet ConRetransmitsExceeded) r)).
+Proof.
+  intros s og r tok q c HI Hog Hin G Hf. unfold tm_dispatch_error. rewrite Hog.
+  unfold Inv in HI. rewrite Hog in HI. destruct (HI _ _ Hin) as (c0 & G0 & Hc & _ & Hl). rewrite G in G0. inversion G0. subst c0.
+  destruct Hl as [[Hr _]|(_ & _ & rid & Hx)]; [|congruence].
+  exact (run_stoppers_delivers ConRetransmitsExceeded q _ s c _ (collect_stoppers_ok r og _ _ Hin) G Hc Hr Hf).
 Qed.
 
 (* ---- shutdown fails every outstanding request that is still waiting for its response *)
